@@ -1,5 +1,6 @@
 import GitSizer.Proofs.History
 import GitSizer.Proofs.PathRes.Ops
+import GitSizer.Gen.Cmds
 /-! # C08 — Footnotes name a real witness of each maximum
     Proved here (over the REGENERATED `recordBlob`): after recording any sequence of blobs, the cited
     blob is one of the recorded blobs and its size attains the reported maximum; the reported
@@ -106,6 +107,45 @@ theorem record_ops_never_panic (e : Env) (hok : EnvOK e) (ops : List Spec.Op) (h
   · intro c t h
     obtain ⟨s2, h2, _⟩ := recordCommit_inv hok inv c t h.1 h.2
     exact ⟨s2, h2⟩
+
+/-! ### the calls that feed the resolver (REGENERATED from sizes/graph.go and sizes/sizes.go)
+
+`descriptions_resolve` assumes that every operation reports a true fact (`OpOK`). What the code
+passes at each call site is extracted on every run (`Gen.Cmds.resolverSites`): the entry just
+parsed of the tree being initialised — never a submodule link —, a parsed commit and its tree, a
+walked root's name and object, and `setPath` with the type that matches the field. -/
+
+/-- (function, callee, arguments) of every resolver call outside path_resolver.go -/
+theorem resolver_calls_pinned :
+    Gen.Cmds.resolverSites.map (fun r => (r.2.1, r.2.2.1, r.2.2.2.1)) =
+    [("ScanRepositoryUsingGraph", "RecordCommit", ["commit.oid", "commit.tree"]),
+     ("ScanRepositoryUsingGraph", "RecordName", ["root.Name()", "root.OID()"]),
+     ("RegisterName", "RecordName", ["name", "oid"]),
+     ("initialize", "RecordTreeEntry", ["oid", "name", "entry.OID"]),
+     ("initialize", "RecordTreeEntry", ["oid", "name", "entry.OID"]),
+     ("initialize", "RecordTreeEntry", ["oid", "name", "entry.OID"]),
+     ("recordBlob", "setPath", ["g.pathResolver", "&s.MaxBlobSizeBlob", "oid", "\"blob\""]),
+     ("recordTree", "setPath", ["g.pathResolver", "&s.MaxTreeEntriesTree", "oid", "\"tree\""]),
+     ("recordTree", "setPath", ["g.pathResolver", "&s.MaxPathDepthTree", "oid", "\"tree\""]),
+     ("recordTree", "setPath", ["g.pathResolver", "&s.MaxPathLengthTree", "oid", "\"tree\""]),
+     ("recordTree", "setPath", ["g.pathResolver", "&s.MaxExpandedTreeCountTree", "oid", "\"tree\""]),
+     ("recordTree", "setPath", ["g.pathResolver", "&s.MaxExpandedBlobCountTree", "oid", "\"tree\""]),
+     ("recordTree", "setPath", ["g.pathResolver", "&s.MaxExpandedBlobSizeTree", "oid", "\"tree\""]),
+     ("recordTree", "setPath", ["g.pathResolver", "&s.MaxExpandedLinkCountTree", "oid", "\"tree\""]),
+     ("recordTree", "setPath", ["g.pathResolver", "&s.MaxExpandedSubmoduleCountTree", "oid", "\"tree\""]),
+     ("recordCommit", "setPath", ["g.pathResolver", "&s.MaxCommitSizeCommit", "oid", "\"commit\""]),
+     ("recordCommit", "setPath", ["g.pathResolver", "&s.MaxParentCountCommit", "oid", "\"commit\""]),
+     ("recordTag", "setPath", ["g.pathResolver", "&s.MaxTagDepthTag", "oid", "\"tag\""])] := by decide
+
+/-- tree entries are reported for subtrees, symlinks and blobs, never for submodule links -/
+theorem tree_entries_reported_except_submodules :
+    (Gen.Cmds.resolverSites.filter (fun r => r.2.2.1 == "RecordTreeEntry")).map (fun r => r.2.2.2.2) =
+    ["case entry.Filemode&0o170000 == 0o40000", "case entry.Filemode&0o170000 == 0o120000", "default"] := by decide
+
+/-- root names are recorded only for roots that are walked -/
+theorem names_of_walked_roots :
+    (Gen.Cmds.resolverSites.filter (fun r => r.2.2.1 == "RecordName" && r.2.1 == "ScanRepositoryUsingGraph")).map (fun r => r.2.2.2.2) =
+    ["if root.Walk()"] := by decide
 
 /-! ### the three repaired defects, as kernel-checked facts about git's syntax (`Spec.resolve`) and
     about the descriptions the model of the REPAIRED code prints -/
